@@ -510,6 +510,20 @@ def r11_keep_comparison_total(idx, r):
             n += 1
             r.violate("restoreBackup:array-comparison-cannot-raise", f, f"`{norm(c)}` compares the kept and the restored value element by element: for arrays of different shapes numpy raises, the exception "
                       "leaves StateRetainer.__exit__ and the remaining objects are not rolled back (and the kept value is lost)", node=c)
+    # the same for values that are not arrays: `a != b` between a numpy scalar and a list, or between Flags and None, raises; every bare
+    # (in)equality of the two values sits inside a try whose handler catches it
+    par = f.module.parents()
+    names = {"retainedValue", "currentValue"}
+    for x in walk_local(f.node):
+        if isinstance(x, ast.Compare) and any(isinstance(o, (ast.Eq, ast.NotEq)) for o in x.ops) and {norm(x.left), norm(x.comparators[0])} == names:
+            cur, guarded = x, False
+            while cur is not f.node:
+                p_ = par[cur]
+                if isinstance(p_, ast.Try) and cur in p_.body and any(h.type is None or norm(h.type) in ("Exception", "BaseException", "(ValueError, AttributeError, TypeError)") or "Exception" in norm(h.type) for h in p_.handlers):
+                    guarded = True
+                cur = p_
+            n2 = f"restoreBackup:scalar-comparison-cannot-raise"
+            r.require(guarded, n2, f, node=x, msg=f"`{norm(x)}` can raise (numpy scalar against a list: ambiguous truth value; Flags against None: AttributeError): the exception aborts the roll-back of every object visited later")
     tot = [c for c in iter_calls(f.node) if dotted(c.func) in ("np.array_equal", "numpy.array_equal", "np.array_equiv")]
     r.require(n == 0 and bool(tot) or n == 0 and not any(isinstance(x, ast.Attribute) and x.attr == "ndarray" for x in ast.walk(f.node)), "restoreBackup:shape-safe-array-comparison", f,
               msg="array-valued kept parameters are compared with a shape-safe predicate (np.array_equal)")
@@ -567,7 +581,7 @@ def run(idx, chk):
                  necessary="exactly the parameters named in the keep-set keep their new values; everything else is rolled back")
     chk.run_rule("R16.10", "the roll-back re-arms the validity flag of the block's derived-shape volume (it is not part of the saved state)", lambda r: r10_validity_flags(idx, r), floor=1,
                  necessary="after the scope every derived value (volumes included) is that of the restored state")
-    chk.run_rule("R16.11", "the comparison that decides whether a kept value is re-applied cannot raise for arrays of different shapes", lambda r: r11_keep_comparison_total(idx, r), floor=1,
+    chk.run_rule("R16.11", "the comparison that decides whether a kept value is re-applied cannot raise for arrays of different shapes", lambda r: r11_keep_comparison_total(idx, r), floor=2,
                  necessary="the roll-back completes for every object of the scope, whatever the kept values are")
     chk.run_rule("R16.12", "links are lifted out of every dimension before pickling; only the backup machinery clears the SINCE_BACKUP bit", lambda r: r12_links_and_flags(idx, r), floor=4,
                  necessary="after the scope every object is as before except the kept parameters, which keep their new values")
